@@ -634,14 +634,30 @@ def rejection_points(body):
             continue
         acc.add(x)
         st.extend(preds.get(x, []))
+    canrej = _can_reach(body, rej)
     n = 0
     for sb in range(body.n):
         if body.term(sb)["k"] != "switch" or sb not in acc:
             continue
         succ = body.succ(sb)
-        if any(s not in acc for s in succ) and any(s in acc for s in succ):
+        # the rejecting side must actually lead to a rejection: the `unreachable` arm of an exhaustive match is neither side
+        if any(s not in acc and s in canrej for s in succ) and any(s in acc for s in succ):
             n += 1
     return n
+
+
+def _can_reach(body, targets):
+    """blocks from which some block of `targets` is reachable (targets included)"""
+    preds = body.preds()
+    out = set()
+    st = list(targets)
+    while st:
+        x = st.pop()
+        if x in out:
+            continue
+        out.add(x)
+        st.extend(preds.get(x, []))
+    return out
 
 
 # ------------------------------------------------------------------ under which conditions does a check run at all
@@ -685,10 +701,11 @@ def guard_profile(body):
     reach = body.reachable(0)
     switches = [sb for sb in reach if body.term(sb)["k"] == "switch"]
     rejecting = set()
+    canrej = _can_reach(body, rej)
     for sb in switches:
         if sb in acc:
             succ = body.succ(sb)
-            if any(s not in acc for s in succ) and any(s in acc for s in succ):
+            if any(s not in acc and s in canrej for s in succ) and any(s in acc for s in succ):
                 rejecting.add(sb)
     pdom = postdominators(body)
     # control dependence: x depends on s iff some successor t of s has x in pdom[t] (or x == t) and x does not strictly postdominate s
